@@ -1,5 +1,5 @@
 (* C09: BINARY literals.  src/cldai/sdaiBinary.cc SDAI_Binary::ReadBinary() on the stream model of
-   P21Lex.v.  The stored value is the string of hexadecimal digits between the quotes.
+   P21Lex.v.  The stored value is the string of hexadecimal digits between the quotes, letters in upper case.
    No proofs here; extracted for the correspondence check. *)
 From Coq Require Import List ZArith Bool NArith.
 From SC.gen Require Import SevTable.
@@ -12,14 +12,17 @@ Definition DQUOTE : byte := 34%N.
 Definition is_xdigit (c : byte) : bool :=
   (is_digit c || (N.leb 65 c && N.leb c 70) || (N.leb 97 c && N.leb c 102))%N%bool.
 
-(* while( in.good() && isxdigit( c ) ) { str += c; in.get( c ); }   -- c keeps its value when get fails *)
+(* toupper() of a hexadecimal digit: the value is kept the way Part 21 spells it *)
+Definition up_hex (c : byte) : byte := if (N.leb 97 c && N.leb c 102)%N%bool then (c - 32)%N else c.
+
+(* while( in.good() && isxdigit( c ) ) { str += toupper( c ); in.get( c ); }   -- c keeps its value when get fails *)
 Fixpoint hex_loop (fuel : nat) (s : stream) (c : byte) (acc : list byte) : stream * byte * list byte :=
   match fuel with
   | O => (s, c, acc)
   | S f =>
     if good s && is_xdigit c then
       let '(oc, s') := s_get s in
-      hex_loop f s' (match oc with Some x => x | None => c end) (acc ++ [c])
+      hex_loop f s' (match oc with Some x => x | None => c end) (acc ++ [up_hex c])
     else (s, c, acc)
   end.
 
